@@ -340,4 +340,58 @@ example : spatialGradients (I0 true) (fun j => if j = 2 then 1 else 0) 0 = ⟨0,
     ∧ truncV ⟨0, 1 / 2, -1 / 6⟩ = ⟨0, 0, 0⟩ := by
   decide +kernel
 
+/-! ### round 6: the SIZE of the weights (absolute length unit x kernel options) and results returned by earlier calls -/
+
+/-- **C15, tiny kernel weights: the operator is unchanged, the determinant is not representable.**  The corner example with
+    all weights multiplied by `10⁻¹⁰⁹` (kernel `exp`, default `alpha`, millimetre coordinates with 250 mm elements): every
+    entry of the moment matrix of vertex 0 is still far above the smallest normal binary64 number (`> 10⁻³⁰⁸`) and the operator
+    row is the SAME row (`C15_row_weight_scale`), but `det M_0` - positive, so the neighbourhood spans space - lies below
+    `10⁻³⁰⁸`: a closed-form inverse `adj / det` evaluated in binary64 (seeded change C15-11) divides by a subnormal number
+    or reports "singular", although nothing about the vertex is degenerate.  Over `ℚ` (this model, the driver) the closed
+    form is exact whatever the size of the weights, which is why only the oracle (stream kernel-scale) can see such a change. -/
+theorem C15_det_underflow_counterexample :
+    let c : Nat → ℚ := fun _ => 1 / 10 ^ 109
+    let M := momentAt (scaleW (I0 true) c) 0
+    opRow (scaleW (I0 true) c) 0 = opRow (I0 true) 0
+      ∧ 0 < det3 (momentAt (I0 true) 0)
+      ∧ 0 < det3 M ∧ det3 M < 1 / 10 ^ 308
+      ∧ 1 / 10 ^ 200 < M.r0.x ∧ 1 / 10 ^ 200 < M.r1.y ∧ 1 / 10 ^ 200 < M.r2.z := by
+  decide +kernel
+
+/-- what a caller holds after some calls of a convenience function: the arrays returned so far (a call returns the index of
+    its array).  femio as it is: every call allocates a new array (`np.stack`). -/
+def callFresh {α : Type} (held : List α) (v : α) : List α × Nat := (held ++ [v], held.length)
+
+/-- seeded change C15-12: the result is assembled in ONE work array kept on the object and that array is returned (all
+    results of one shape and dtype are the same array) -/
+def callWork {α : Type} (held : List α) (v : α) : List α × Nat :=
+  match held with
+  | [] => ([v], 0)
+  | _ :: t => (v :: t, 0)
+
+def callsFresh {α : Type} (held : List α) (vs : List α) : List α := vs.foldl (fun h v => (callFresh h v).1) held
+
+/-- **C15, results are values.**  With a fresh array per call, whatever calls follow, every array returned earlier still
+    holds what was returned (so it still equals the true gradient / the explicit matrices applied by hand to ITS field), and
+    a call returns its own value. -/
+theorem C15_held_results_stable {α : Type} (held : List α) (vs : List α) (k : Nat) (hk : k < held.length) (v : α) :
+    (callsFresh held vs)[k]? = held[k]? ∧ (callFresh held v).1[(callFresh held v).2]? = some v := by
+  constructor
+  · induction vs generalizing held with
+    | nil => rfl
+    | cons w ws ih =>
+      have hk' : k < (held ++ [w]).length := by simp; omega
+      have := ih (held ++ [w]) hk'
+      simp only [callsFresh, List.foldl_cons, callFresh] at this ⊢
+      rw [this, List.getElem?_append_left hk]
+  · simp [callFresh]
+
+/-- the work-array variant: each call is right when it returns, but the array returned for the first field holds the
+    gradient of the second field afterwards -/
+theorem C15_work_array_counterexample :
+    let h1 := callWork ([] : List (List ℚ)) [2, -3, 5]
+    let h2 := callWork h1.1 [7, 0, 1]
+    h1.1[h1.2]? = some [2, -3, 5] ∧ h2.1[h2.2]? = some [7, 0, 1] ∧ h2.1[h1.2]? ≠ h1.1[h1.2]? := by
+  decide
+
 end Femio.C15
